@@ -436,6 +436,10 @@ inline const std::string &scratch_dir ()
 			if (dir) { while (auto *e = readdir (dir)) { std::string n = e->d_name ; if (n != "." && n != "..") unlink ((d + "/" + n).c_str ()) ; } closedir (dir) ; }
 		}
 		setenv ("TMPDIR", d.c_str (), 1) ;
+		// work inside it: for a descriptor or virtual-I/O handle the library probes resource forks relative to the current directory
+		// ("._", ".AppleDouble/"), and writes one there for SD2 - a stray "._" in the directory the check was started from once made
+		// unrecognisable bytes fail differently per route
+		if (chdir (d.c_str ()) != 0) { }
 	}
 	return d ;
 }
